@@ -432,6 +432,33 @@ void respond(World &W, Peer &p, Exchange &x, const Bytes &query)
 		pdus.push_back(unhex(ex.gets("hex")));
 	}
 	const J &muts = ex["muts"];
+	W.note("respond s%d x=%d q=%s qserial=%u -> cache session=%u serial=%u data=%zu keys=%zu hist=%zu pdus=%zu pending=%zu", p.si, x.id,
+	       x.qtype == 2 ? "reset" : "serial", x.qserial, p.session, p.serial, p.data.size(), p.keys.size(), p.hist.size(), pdus.size(), p.pending.size());
+	if (W.debug) {
+		std::string ks;
+		auto kid = [](const SpkiRec &r) {
+			uint32_t h = r.asn;
+			for (auto c : r.ski)
+				h = h * 31 + c;
+			for (auto c : r.spki)
+				h = h * 31 + c;
+			char b[16];
+			snprintf(b, sizeof(b), "%08x", h);
+			return std::string(b);
+		};
+		for (auto &r : p.keys)
+			ks += " " + kid(r);
+		ks += " | sent:";
+		for (auto &b : pdus)
+			if (b.size() >= 123 && b[1] == PDU_ROUTER_KEY) {
+				SpkiRec r;
+				r.asn = get32(&b[8 + SKI_SIZE]);
+				memcpy(r.ski.data(), &b[8], SKI_SIZE);
+				memcpy(r.spki.data(), &b[8 + SKI_SIZE + 4], SPKI_SIZE);
+				ks += std::string(b[2] ? " +" : " -") + kid(r);
+			}
+		W.note("keys s%d:%s", p.si, ks.c_str());
+	}
 	for (size_t i = 0; i < muts.size(); i++)
 		mutate(W, p, x, pdus, muts[i], rv, query);
 	Bytes all;
